@@ -418,6 +418,76 @@ def run(prog: Program, L: Ledger) -> None:
             L.check("on_cell_changed" in called, "P3", f"{d.name}:on_cell_changed", d.where,
                     f"{d.name} can accept cell changes (context {ctx.name}) but its accept path ({', '.join(f.qualname for f in chain)}) never calls on_cell_changed on the stored moves",
                     "a user move implementing on_cell_changed (documented in the Move protocol) is never notified of an accepted cell move", "on_cell_changed")
+    # P3 (fan-out): inside the loop over the move table the only thing that may keep a stored move from being notified is
+    # "this very object was notified already" (identity de-duplication through a local collection).  A skip that looks at
+    # the entry's schedule, weight or anything else of the simulation leaves a stored move uninformed.
+    def _names(e):
+        return {n_.id for n_ in ast.walk(e) if isinstance(n_, ast.Name)}
+
+    from .. import memo as _memo
+
+    n_fan = 0
+    notifiers = []
+    for d in prog.subclasses(mc):
+        f = d.methods.get("save_state")
+        if f is not None and any(isinstance(c.func, ast.Attribute) and c.func.attr in ("on_atoms_changed", "on_cell_changed") for c in calls_in(f.node)):
+            notifiers.append(f)
+    # the functions the notifying save_state bodies go through (helpers that hand out the moves to notify)
+    on_path = list(_memo.reach(prog, notifiers, by_name=False).values())
+    for f in on_path:
+        if f.name in ("__init__", "from_dict", "to_dict", "add_move", "yield_moves", "step", "irun", "run", "srun"):
+            continue
+        is_notifier = f in notifiers
+        for loop in [n_ for n_ in walk_no_nested(f.node) if isinstance(n_, (ast.For, ast.ListComp, ast.GeneratorExp, ast.SetComp, ast.DictComp))]:
+            gens = [(loop.target, loop.iter, [])] if isinstance(loop, ast.For) else [(g_.target, g_.iter, g_.ifs) for g_ in loop.generators]
+            for tgt_, it_, ifs_ in gens:
+                if "self.moves" not in norm(it_):
+                    continue
+                if isinstance(loop, ast.For) and is_notifier and not any(isinstance(c.func, ast.Attribute) and c.func.attr in ("on_atoms_changed", "on_cell_changed") for c in calls_in(loop)) \
+                        and not any(isinstance(x_, (ast.Yield, ast.Return)) for x_ in ast.walk(loop)):
+                    continue
+                n_fan += 1
+                loopvars = _names(tgt_)
+                # locals bound inside the loop stand for what they were bound to
+                binds_ = {}
+                if isinstance(loop, ast.For):
+                    for st_ in ast.walk(loop):
+                        if isinstance(st_, ast.Assign) and len(st_.targets) == 1 and isinstance(st_.targets[0], ast.Name):
+                            binds_.setdefault(st_.targets[0].id, []).append(st_.value)
+                conds = list(ifs_)
+                if isinstance(loop, ast.For):
+                    for st_ in ast.walk(loop):
+                        if isinstance(st_, ast.If):
+                            skips = any(isinstance(x_, (ast.Continue, ast.Break)) for b_ in (st_.body, st_.orelse) for y_ in b_ for x_ in ast.walk(y_))
+                            guards_note = any(isinstance(c.func, ast.Attribute) and c.func.attr in ("on_atoms_changed", "on_cell_changed", "append", "add", "setdefault") for c in calls_in(st_)) \
+                                or any(isinstance(x_, ast.Yield) for x_ in ast.walk(st_))
+                            if skips or guards_note:
+                                conds.append(st_.test)
+                bad_ = None
+                for t_ in conds:
+                    exprs_ = [t_]
+                    seen_ = set()
+                    while exprs_ and bad_ is None:
+                        e_ = exprs_.pop()
+                        for a_ in ast.walk(e_):
+                            if isinstance(a_, ast.Attribute):
+                                root_ = a_
+                                while isinstance(root_, ast.Attribute):
+                                    root_ = root_.value
+                                if isinstance(root_, ast.Name) and root_.id == "self":
+                                    bad_ = t_
+                                elif isinstance(root_, ast.Name) and root_.id in loopvars and a_.attr not in ("move",) and isinstance(a_.value, ast.Name):
+                                    bad_ = t_
+                            if isinstance(a_, ast.Name) and a_.id in binds_ and a_.id not in seen_:
+                                seen_.add(a_.id)
+                                exprs_.extend(binds_[a_.id])
+                    if bad_ is not None:
+                        break
+                L.check(bad_ is None, "P3", f"{f.qualname}:fan-out", f"{f.module.relpath}:{loop.lineno}",
+                        f"on the notification path a stored move is skipped when `{norm(bad_)[:90] if bad_ is not None else ''}`: only 'this object was notified already' may skip an entry (the condition reads the simulation or the entry's schedule)",
+                        "a user move stored with interval > 1 (or whatever the condition looks at) misses accepted changes and works with a stale picture of the atoms", norm(bad_)[:100] if bad_ is not None else "")
+    L.floor("loops over the move table on the notification path", n_fan, 1)
+
     # P3 (guard): the notification is conditional on "the accepted trial changed the cell", decided by comparing the live
     # cell with the context's saved cell.  That comparison must see the PRE-trial saved cell: evaluated before the chain
     # call that refreshes it, or on a copy taken before; a plain alias taken before is only as good as the context's
